@@ -16,6 +16,16 @@ CLAIMED = {
     text="For every mathematical integer v: _int_bounds_check raises iff v is outside the signed/unsigned 64-bit range; python_value_to_guppy_type returns nat iff hinted nat and 0<=v<2^64, int iff v in int64, raises otherwise, for scalars and for every element of tuple/list constants (lengths 2,3 symbolic elements); USub folding maps Constant(v) to Constant(-v); python_value_to_hugr passes exactly v at log-width 6 to IntVal / the ConstInt payload. 49 obligations, z3.",
     note="hugr.std.int.IntVal and hugr.val.Extension are external constructors modelled as records (assumed); frozenarray_type modelled as a record; container obligations are for lengths 2 and 3 (the loop over `rest` is unrolled), not for arbitrary length.",
     technique="deductive: path-wise symbolic execution of the real functions (incl. the real NumericType/diagnostic classes) over a z3 Int; z3"),
+ "C04": dict(
+    category="proof", design_ref="DESIGN.md §6 C04",
+    text="Binding-table + Guppy mode: the op every int/nat/float/bool dunder is bound to is extracted by evaluating the real decorator expressions (util.int_op/float_op/... run symbolically up to the hugr boundary); for each (type, dunder) z3 proves, over all 64-bit / binary64 operands in Python's domain of definition, that Python's result reduced mod 2^64 equals the assumed semantics of the bound op (Guppy-defined bodies are unfolded). ReversingChecker, DunderChecker bindings, binary_table/unary_table and the dispatch order of _synthesize_binary are proved from their real code. Known upstream defects (signed //,%,divmod with negative divisor; >> on negative ints) are split off as known findings, their complements are proved.",
+    note="HUGR op semantics are ASSUMED (table transcribed from hugr.std op descriptions, printed in the evidence); ** and float round are uninterpreted; float // and % are not compared with CPython's fmod algorithm; mixed int/float operands not covered.",
+    technique="deductive: binding extraction by symbolic evaluation of the real decorators + per-operator SMT obligations (z3 BV/FP) against Python semantics"),
+ "C16": dict(
+    category="proof", design_ref="DESIGN.md §6 C16",
+    text="Exhaustive 4x4 (kinds + non-numeric) symbolic execution of the real try_coerce_to and 3x3 of check_type_against: a coercion happens iff the kind strictly widens in Nat<Int<Float, it calls exactly the direct conversion method of the actual type, narrowing raises GuppyTypeError; Kind.__lt__/auto numbering proved equal to that order; the three conversion methods' bound ops are proved value-preserving (nat->int for v<2^63, ->float = round-to-nearest of the unsigned/signed reading) over all 64-bit values.",
+    note="convert_u/convert_s semantics assumed; get_instance_func/check_call mocked (the obligation is which method is requested).",
+    technique="deductive: exhaustive path-wise symbolic execution of the real functions over the finite kind domain + z3 BV/FP obligations for the bound conversion ops"),
 }
 
 NOT_APPLICABLE = {
